@@ -55,7 +55,9 @@ def required(tier):
            'route:constructor:unset->set', 'route:constructor:set->refused',
            'route:model_validate:unset->set', 'route:model_validate:set->refused',
            'threads:other-thread-sees-and-cannot-replace-the-active-configuration',
-           'threads:configuration-loaded-in-another-thread-is-active-here']
+           'threads:configuration-loaded-in-another-thread-is-active-here',
+           'overlay:list-valued-setting-in-file-and-kwargs',
+           'questionable-load:with-warnings-as-errors']
     return {'classes': cl, 'evaluations': 5000}
 
 
@@ -183,6 +185,11 @@ class Machine:
                        Path(exp['performance_model']).name))
         probes.append(('engine_file', Path(cfg.engine_file).name,
                        Path(exp['engine_file']).name))
+        if exp.get('__lists_from_kwargs__', True):
+            probes.append(('path', [str(x) for x in cfg.path],
+                           [str(Path(x).resolve()) for x in self.search]))
+            probes.append(('data_path_overrides', [str(x) for x in cfg.data_path_overrides],
+                           [str(Path(x).resolve()) for x in self.search[:2]]))
         for name, got, want in probes:
             if got != want:
                 self.fail('effective configuration value differs from defaults<-file<-kwargs',
@@ -209,9 +216,15 @@ class Machine:
         else:
             nested = False
         cfg_file = None
+        file_lists = {}
+        if how == 'both' and rng.random() < 0.5:
+            # list-valued settings given in the file AND as keyword arguments: the keyword
+            # arguments overlay (replace) the file's lists
+            file_lists = {'path': [self.search[2]], 'data_path_overrides': [self.search[2]]}
+            self.rec.cls('overlay:list-valued-setting-in-file-and-kwargs')
         if how in ('file', 'both'):
             cfg_file = self.hdir / f'cfg{rng.getrandbits(30):x}.toml'
-            cfg_file.write_text(toml_dump(file_o))
+            cfg_file.write_text(toml_dump({**file_lists, **file_o}))
         kwargs = dict(copy.deepcopy(kw_o))
         kwargs['path'] = list(self.search)
         kwargs['data_path_overrides'] = self.search[:2]
@@ -325,25 +338,37 @@ class Machine:
         rng = self.rng
         o = self.gen_overlay(allow_paths=False)
         what = rng.choice(['weather-dir-is-a-regular-file', 'weather-dir-is-a-regular-file',
-                           'weather-off-and-dir-missing'])
+                           'weather-off-and-dir-missing', 'unknown-top-level-setting',
+                           'unknown-top-level-setting'])
         if what == 'weather-dir-is-a-regular-file':
             f = self.hdir / 'not_a_directory'
             f.write_text('x')
             o.setdefault('weather', {})['weather_data_dir'] = str(f)
             o['weather']['use_weather'] = True
+        elif what == 'unknown-top-level-setting':
+            o[rng.choice(['performence_model', 'engines_file', 'verbose'])] = 'x'
+            o.setdefault('weather', {})['use_weather'] = False
         else:
             o.setdefault('weather', {})['weather_data_dir'] = 'no_such_weather_dir'
             o['weather']['use_weather'] = False
         kwargs = copy.deepcopy(o)
         kwargs['path'] = list(self.search)
         kwargs['data_path_overrides'] = self.search[:2]
-        self.log.append(('questionable-load', what, o))
+        strict_warnings = rng.random() < 0.5      # python -W error / pytest filterwarnings=error
+        self.log.append(('questionable-load', what, o, 'warnings-as-errors' if strict_warnings
+                         else ''))
         was = self.state
+        import warnings
         try:
-            Config.load(**kwargs)
+            with warnings.catch_warnings():
+                if strict_warnings:
+                    warnings.simplefilter('error')
+                Config.load(**kwargs)
             raised = None
         except Exception as e:  # noqa: BLE001
             raised = e
+        if strict_warnings:
+            self.rec.cls('questionable-load:with-warnings-as-errors')
         if raised is None:
             if was is not None:
                 self.fail('loading while a configuration is active was accepted')
